@@ -107,6 +107,10 @@ NOTES = {
  "C06-C": "Caught by C06.gnutls_verify_sha_pem.release -- a unit written AFTER reading this seed's description and before its first evaluation (the GnuTLS model records the release of the DER signature it hands out; exactly one release on every exit). Without it the change would have been missed: leaks are not decided in general.",
  "C02-C": "Caught by C02 (the TOP unit's admission clause); the C19 check is silent for the same reason as C19-B.",
  "C09-D": "Reported under C09 and C01; the C14 list does not contain __check_key_bits' own unit (its clause 'a refusal carries a message' sits in the C09/C01 contracts).",
+ "C03-C": "NOT DECIDED (exit 2): the change calls strrchr, which the units' libc model does not have; cbmc's built-in loops over a string of symbolic length and the unit times out.",
+ "C11-C": "NOT DECIDED (exit 2): strpbrk is not modelled. Even with a model the defect (scanning a buffer that is not yet terminated) is a read of uninitialised heap bytes, which cbmc's checks do not flag.",
+ "C18-C": "NOT DECIDED (exit 2): strchr / strstr on a PEM of symbolic length are not modelled (time-out). The write into the shared key's PEM would violate the frame clause of the provider entry.",
+ "C08-D": "Caught by the completeness unit: ERR_peek_error was modelled (queue possibly non-empty) after reading this seed's description and before its evaluation.",
  "C05-B": "Reported under C10 (time-claim clauses carry the C10 label); the C05 check itself is silent.",
  "C06-B": "Reported under C14 (message handling clauses).",
  "C18-A": "Caught through the argument obligation of the HMAC model (a NULL output buffer is libcrypto's static buffer) and the frame of the provider entry.",
